@@ -14,14 +14,21 @@ Rec(x) == hist' = Append(hist, x)
 Lm(c, last) == IF last = 0 THEN "zero" ELSE IF last = 2147483647 THEN "max" ELSE "at"
 
 GEnv ==
-    \/ \E r \in Reqs, b \in MCBodies : (\A q \in Reqs : q < r => req[q].st # "new") /\ Start(r, b, BodyLen(b))
-          /\ Rec([e |-> "start", body |-> b])
+    \/ \E r \in Reqs, b \in MCBodies, h \in {"ok", "ok", "ok", "big", "bad"} :
+          /\ (\A q \in Reqs : q < r => req[q].st # "new") /\ (h = "ok" \/ b = "none")
+          /\ \/ Start(r, b, BodyLen(b), h) /\ Rec([e |-> "start", body |-> b, hdr |-> h])
+             \/ \E c \in Conns : StartOn(r, c, b, BodyLen(b), h) /\ cst[c] = "up" /\ resv[c] > 0
+                                  /\ Rec([e |-> "starton", c |-> c, body |-> b, hdr |-> h])
+    \/ \E c \in Conns, lim \in BOOLEAN : cst[c] = "up" /\ resv[c] < 2
+          /\ Reserve(c, MayOpen(c) /\ ((strict /\ ~lim) \/ Count(c) + resv[c] < maxc[c]), lim)
+          /\ Rec([e |-> "reserve", c |-> c, via |-> IF lim THEN "nethttp" ELSE "pool"])
+    \/ \E c \in Conns : resv[c] > 0 /\ Release(c) /\ Rec([e |-> "release", c |-> c])
     \/ \E r \in Reqs : Cancel(r) /\ Rec([e |-> "cancel", r |-> r])
           /\ (req[r].st # "done" \/ (req[r].c \in Conns /\ req[r].s \in open[req[r].c] \ doomed[req[r].c]))
     \/ \E r \in Reqs : CloseBody(r) /\ req[r].c \in Conns /\ req[r].s \in open[req[r].c] /\ Rec([e |-> "closebody", r |-> r])
     \/ \E c \in Conns, m \in MCMax : Settings(c, m) /\ m # maxc[c] /\ Rec([e |-> "settings", c |-> c, max |-> m])
     \/ \E c \in Conns : \E k \in {"empty", "mfs", "iws", "hts"} : maxc[c] # Inf /\ hist[Len(hist)].e # "settings_other"
-          /\ SettingsOther(c) /\ Rec([e |-> "settings_other", c |-> c, kind |-> k])
+          /\ SettingsOther(c, k = "iws") /\ Rec([e |-> "settings_other", c |-> c, kind |-> k])
     \/ \E c \in Conns : \E s \in open[c] \ send[c] : \E es \in BOOLEAN :
           Resp(c, s, es) /\ InFlight(OwnerOf(c, s), c, s) /\ Rec([e |-> "resp", r |-> OwnerOf(c, s), es |-> es])
     \/ \E c \in Conns : \E s \in open[c] \ send[c] : SData(c, s, TRUE) /\ ~InFlight(OwnerOf(c, s), c, s)
